@@ -25,6 +25,7 @@ def _relax(mod, clsname, names):
 _relax(BDM, 'TaggedRecord', ['_parse_illumina_header', 'fromRawFastq'])
 
 PARSER = StubBarcodeParser()
+PARSER.correct = S.corrected      # raw and corrected barcode differ, so a tag that stores the wrong one is visible
 import io, contextlib
 with contextlib.redirect_stdout(io.StringIO()):
     LOADER = DemultiplexingStrategyLoader(PARSER, indexParser=PARSER, indexFileAlias='idx')
@@ -34,7 +35,7 @@ FIXED = [n for n in NAMES if not S.LAYOUTS[n].get('content') and not S.LAYOUTS[n
 HDR = '@NS500414:455:HYLVHBGX5:3:13601:9882:17671 %d:N:0:CGTACT'
 # concrete mates: pairwise distinct characters so that bases / qualities taken from the wrong mate or offset are visible
 C_SEQ = ['ABCDEFGHIJKLMNOPQRSTUVWXYZabcdefghijklmnopqrstuvwxyz', 'zyxwvutsrqponmlkjihgfedcbaZYXWVUTSRQPONMLKJIHGFEDCBA']
-C_QUAL = ['!"#$%&()*+,-./0123456789:;<=>?@ABCDEFGHIJKLMNOPQRSTUVWXYZ[]^_`abcdefghijklmnopqrstuvwxyz{|}~'[:60],
+C_QUAL = ['PQRSTUVWXYZ[]^_`abcdefghijklmnopqrstuvwxyz{|}~!"#$%&()*+,-./0123456789:;<=>?@ABCDEFGHIJKLMNO'[:60],
           '~}|{zyxwvutsrqponmlkjihgfedcba`_^][ZYXWVUTSRQPONMLKJIHGFEDCBA@?>=<;:9876543210/.-,+*)(&%$#"!'[:60]]
 
 
